@@ -231,3 +231,11 @@ def shape_classes(case):
         if max(len(c) for c in ch) >= 3:
             out.append("degree>=3")
     return out
+
+
+def materialize(t):
+    """Cases may carry a large tree as {"bulk": [seed, n, shape, regime]} to stay small."""
+    if "bulk" in t:
+        seed, n, shape, regime = t["bulk"]
+        return bulk_tree_case(seed, n, shape=shape, regime=regime, soma_root=True)
+    return t
